@@ -8,7 +8,10 @@ Four judges of "the Data value d is a value of type T" must agree on every (T, d
     M  the independent Python model (model.py, written from the documentation)
     J  an independent reading of the published schema JSON (jsonschema_read.py)
 
-plus:  enc_i(value) == M.encode(value)  (up-cast of an unchecked-cast value),
+plus:  rt_i(d)  (`expect x: T = d` then `let r: Data = x`) accepts exactly what the bare expect accepts, returns d,
+       a real validator v_i(p: T) { mint(_r: T, ..)  spend(d: Option<T>, ..)  withdraw(..) }: redeemer and datum are
+       checked like `expect`, the parameter (cast unchecked) comes back unchanged,
+       enc_i(value) == M.encode(value)  (up-cast of an unchecked-cast value),
        lit_i_j()    == M.encode(value)  (the value written as an Aiken expression, then up-cast),
        `validate` never panics, the schema can be generated and read.
 
@@ -31,9 +34,10 @@ import jsonschema_read as JS  # noqa: E402
 
 TIERS = {
     # modules, values per type: (conforming, mutants, cross, random), literals per type
-    "smoke": dict(modules=8, n_conf=8, n_mut=18, n_cross=2, n_rand=2, lits=2),
-    "quick": dict(modules=128, n_conf=10, n_mut=26, n_cross=3, n_rand=3, lits=3),
-    "thorough": dict(modules=1200, n_conf=12, n_mut=36, n_cross=4, n_rand=4, lits=3),
+    # validators: how many of the module's types also get a real validator (parameter / redeemer / datum)
+    "smoke": dict(modules=8, n_conf=8, n_mut=18, n_cross=2, n_rand=2, lits=2, validators=3),
+    "quick": dict(modules=128, n_conf=10, n_mut=26, n_cross=3, n_rand=3, lits=3, validators=4),
+    "thorough": dict(modules=1200, n_conf=12, n_mut=36, n_cross=4, n_rand=4, lits=3, validators=6),
 }
 
 REJECT_VARIANTS = {"SchemaMismatch", "TupleItemsMismatch"}
@@ -55,23 +59,31 @@ def make_case(seed, k, cfg):
         vals = G.values_for(mod, t, [o for o in types if o != t], rng, cfg["n_conf"], cfg["n_mut"], cfg["n_cross"], cfg["n_rand"])
         per_type.append(vals)
         lits[i] = [av for _, origin, av in vals if origin == "conf"][: cfg["lits"]]
-    src = G.build_source(mod, types, lits)
-    return dict(k=k, mod=mod, types=types, notes=notes, values=per_type, lits=lits, src=src)
+    vrng = Rng(seed, stream=(1 << 32) + k)
+    validators = sorted(vrng.shuffle(list(range(len(types))))[: cfg.get("validators", 0)])
+    src = G.build_source(mod, types, lits, validators)
+    return dict(k=k, mod=mod, types=types, notes=notes, values=per_type, lits=lits, src=src, validators=validators)
 
 
 def jobs_for(case):
     k = case["k"]
-    modules = [{"name": "m", "kind": "lib", "src": case["src"]}]
+    modules = [{"name": "m", "kind": "validator", "src": case["src"]}]
     probes, entries = [], []
     for i, vals in enumerate(case["values"]):
         t = case["types"][i]
         data = [d for d, _, _ in vals]
         probes.append({"module": "m", "fn": "probe_%d" % i, "values": data})
         entries.append({"kind": "fn", "module": "m", "name": "accept_%d" % i, "args": [[d] for d in data]})
+        entries.append({"kind": "fn", "module": "m", "name": "rt_%d" % i, "args": [[d] for d in data]})
         conf = [d for d in data if M.conforms(case["mod"], t, d)]
         entries.append({"kind": "fn", "module": "m", "name": "enc_%d" % i, "args": [[d] for d in conf]})
         for j, _ in enumerate(case["lits"][i]):
             entries.append({"kind": "fn", "module": "m", "name": "lit_%d_%d" % (i, j), "args": [[]]})
+        if i in case["validators"] and conf:
+            # [parameter, script context]; the parameter is a conforming value (it is cast unchecked)
+            p0 = conf[0]
+            args = [[p0, G.ctx_mint(d)] for d in data] + [[p0, G.ctx_spend(d)] for d in data] + [[d, G.ctx_withdraw(d)] for d in conf]
+            entries.append({"kind": "validator", "module": "m", "name": "v_%d" % i, "args": args})
     sj = {"id": "s%d" % k, "op": "schema", "modules": modules, "probes": probes}
     cj = {"id": "c%d" % k, "op": "compile_eval", "plutus": "v3", "modules": modules, "tracings": ["silent-all"], "infer_tracing": "same", "entries": entries}
     return sj, cj
@@ -123,9 +135,8 @@ def explain(mod, t, d, S, K, Mv, J, feats):
     elif all(x == mp for x in sj) and "bare-pair" in feats:
         names.append(M.Q_BARE_PAIR_NOTHING)
     elif "self-nested-generic" in feats and len(set(sj)) == 1:
+        # validator and JSON reader agree with each other on the (wrong) published schema
         names.append("self-nested-generic-schema")
-    elif "bare-pair" in feats and J is not None and J == mp and S is not None and S != J:
-        return "unexplained"
     else:
         return "unexplained"
     return "+".join(names) if names else "unexplained"
@@ -255,7 +266,7 @@ def evaluate(case, sres, cres, T):
                 T.inconclusive["no-implementation-verdict"] = T.inconclusive.get("no-implementation-verdict", 0) + 1
                 continue
             if all(v == Mv for v in known):
-                T.distinct.add(h([ts, d]))
+                T.distinct.add(h([case["k"], ts, d]))
                 T.count("accepted_by_all" if Mv else "rejected_by_all")
                 if S is None or K is None or J is None:
                     T.count("agree_with_a_party_missing")
@@ -263,12 +274,85 @@ def evaluate(case, sres, cres, T):
                     T.samples.append({"type": ts, "value": d, "origin": origin, "S": b(S), "K": b(K), "M": b(Mv), "J": b(J)})
             else:
                 why = explain(mod, t, d, S, K, Mv, J, feats)
-                key = "C12|disagree|%s|S=%s,K=%s,M=%s,J=%s" % (why, b(S), b(K), b(Mv), b(J))
+                key = "C12|disagree|" + why
+                pattern = "S=%s,K=%s,M=%s,J=%s" % (b(S), b(K), b(Mv), b(J))
                 T.count("disagreements")
-                T.violation(key, lambda d=d, sv=sv, kr=kr, origin=origin: witness(d, {"origin": origin, "validate": sv, "compiled": {x: kr.get(x) for x in ("ok", "err", "err_msg") if kr and x in kr}, "model": Mv, "json": J, "features": sorted(feats)}))
+                T.count("disagreement:%s:%s" % (why, pattern))
+                T.violation(key, lambda d=d, sv=sv, kr=kr, origin=origin, pattern=pattern: witness(d, {"origin": origin, "pattern": pattern, "validate": sv, "compiled": {x: kr.get(x) for x in ("ok", "err", "err_msg") if kr and x in kr}, "model": Mv, "json": J, "features": sorted(feats)}))
 
-        # ---- enc: unchecked cast to T, then up-cast to Data == identity on model-conforming values
         conf = [d for d, _, _ in vals if M.conforms(mod, t, d)]
+        # ---- a real validator: redeemer (mint) and datum (spend) of type T must be checked exactly like
+        #      `expect`; a parameter of type T (cast unchecked, it is trusted) must come back unchanged
+        ve = entries.get("v_%d" % i)
+        if ve is not None:
+            T.count("validators")
+            if "compile_panic" in ve:
+                T.evaluations += 1
+                T.violation("C12|compile|panic|" + panic_message(ve["compile_panic"]), lambda: witness(extra={"panic": ve["compile_panic"], "fn": "validator"}))
+            vres = ve.get("results") or []
+            n = len(vals)
+            if len(vres) == 2 * n + len(conf):
+                def vok(r):
+                    if isinstance(r, dict) and "ok" in r:
+                        return True
+                    if isinstance(r, dict) and "err" in r and r["err"] != "OutOfExError":
+                        return False
+                    return None
+                for role, rs in (("redeemer", vres[:n]), ("datum", vres[n : 2 * n])):
+                    for (d, origin, _), kr, vr in zip(vals, kres, rs):
+                        K = True if (isinstance(kr, dict) and "ok" in kr) else (False if isinstance(kr, dict) and "err" in kr else None)
+                        V = vok(vr)
+                        if K is None or V is None:
+                            T.inconc("validator-%s:no-verdict" % role)
+                            continue
+                        T.evaluations += 1
+                        T.count("validator_%s_checked" % role)
+                        if V == K:
+                            T.count("validator_%s_same_as_expect" % role)
+                        else:
+                            Mv = M.conforms(mod, t, d)
+                            T.count("validator_%s_%s_%s" % (role, "accepts" if V else "rejects", "conforming" if Mv else "nonconforming"))
+                            T.violation("C12|validator-%s|%s-what-expect-%s" % (role, "accepts" if V else "rejects", "accepts" if K else "rejects"), lambda d=d, vr=vr, origin=origin, role=role, Mv=Mv: witness(d, {"origin": origin, "validator": G.validator_src(0, t), "role": role, "validator_result": {x: vr.get(x) for x in ("ok", "err", "err_msg") if x in vr}, "model": Mv, "features": sorted(feats)}))
+                for d, vr in zip(conf, vres[2 * n :]):
+                    T.evaluations += 1
+                    T.count("validator_param_checked")
+                    if vok(vr):
+                        T.count("validator_param_roundtrip")
+                    else:
+                        hd = M.head(mod, t)
+                        why = "list-deco-argument-cast" if hd[0] == "app" and M.adt_of(mod, hd)[0].list_deco else "unexplained"
+                        T.violation("C12|validator-param|failed|%s|%s" % ((vr or {}).get("err", "no-result"), why), lambda d=d, vr=vr: witness(d, {"validator": G.validator_src(0, t), "role": "parameter", "validator_result": {x: vr.get(x) for x in ("ok", "err", "err_msg") if vr and x in vr}}))
+            elif "compile_panic" not in ve:
+                T.inconc("validator-results-missing", 2 * n)
+        # ---- rt: `expect x: T = d` then `let r: Data = x`: succeeds exactly when the bare expect does,
+        #      and then returns d unchanged
+        rt = entries.get("rt_%d" % i, {})
+        if "compile_panic" in rt:
+            T.evaluations += 1
+            T.violation("C12|compile|panic|" + panic_message(rt["compile_panic"]), lambda: witness(extra={"panic": rt["compile_panic"], "fn": "rt"}))
+        rres = rt.get("results") or []
+        if len(rres) == len(vals):
+            hd = M.head(mod, t)
+            eh = M.head(mod, hd[1]) if hd[0] == "list" else None
+            castable = hd[0] in ("int", "bytes") or (eh is not None and (eh[0] == "data" or (eh[0] == "pair" and M.head(mod, eh[1])[0] == "data" and M.head(mod, eh[2])[0] == "data")))
+            for (d, origin, _), kr, rr in zip(vals, kres, rres):
+                K = True if (isinstance(kr, dict) and "ok" in kr) else (False if isinstance(kr, dict) and "err" in kr else None)
+                R = True if (isinstance(rr, dict) and "ok" in rr) else (False if isinstance(rr, dict) and "err" in rr and rr["err"] != "OutOfExError" else None)
+                if K is None or R is None:
+                    T.inconc("rt:no-verdict")
+                    continue
+                T.evaluations += 1
+                T.count("rt_checked")
+                if R != K:
+                    why = "cast-roundtrip-elimination" if (R and castable) else "unexplained"
+                    T.violation("C12|expect-then-upcast|%s-what-expect-%s|%s" % ("accepts" if R else "rejects", "accepts" if K else "rejects", why), lambda d=d, rr=rr, origin=origin: witness(d, {"origin": origin, "fn": "rt", "rt_result": {x: rr.get(x) for x in ("ok", "err", "err_msg") if x in rr}}))
+                elif R and not (rr["ok"][0] == "con" and rr["ok"][1] == "data" and M.strip(rr["ok"][2]) == d):
+                    T.violation("C12|expect-then-upcast|changes-the-value", lambda d=d, rr=rr: witness(d, {"fn": "rt", "rt_result": rr.get("ok")}))
+                else:
+                    T.count("rt_same_as_expect")
+        elif "compile_panic" not in rt:
+            T.inconc("rt-results-missing", len(vals))
+        # ---- enc: unchecked cast to T, then up-cast to Data == identity on model-conforming values
         if "compile_panic" in enc:
             T.evaluations += 1
             T.violation("C12|compile|panic|" + panic_message(enc["compile_panic"]), lambda: witness(extra={"panic": enc["compile_panic"], "fn": "enc"}))
@@ -382,10 +466,15 @@ def main(argv=None):
     c = r["counters"]
     print("  modules=%d types=%d values=%d conforming=%d near_miss=%d other_nonconforming=%d" % (c.get("modules", 0), c.get("types", 0), c.get("values", 0), c.get("conforming", 0), c.get("near_miss", 0), c.get("other_nonconforming", 0)))
     print("  accepted_by_all=%d rejected_by_all=%d disagreements=%d validate_panics=%d enc=%d/%d lit=%d/%d" % (c.get("accepted_by_all", 0), c.get("rejected_by_all", 0), c.get("disagreements", 0), c.get("validate_panics", 0), c.get("enc_equal", 0), c.get("enc_checked", 0), c.get("lit_equal", 0), c.get("lit_checked", 0)))
+    print("  validators=%d redeemer same-as-expect=%d/%d datum same-as-expect=%d/%d parameter round-trip=%d/%d" % (c.get("validators", 0), c.get("validator_redeemer_same_as_expect", 0), c.get("validator_redeemer_checked", 0), c.get("validator_datum_same_as_expect", 0), c.get("validator_datum_checked", 0), c.get("validator_param_roundtrip", 0), c.get("validator_param_checked", 0)))
+    print("  expect-then-upcast same-as-expect=%d/%d" % (c.get("rt_same_as_expect", 0), c.get("rt_checked", 0)))
     print("  types_with: " + ", ".join("%s=%d" % (k.split(":", 1)[1], v) for k, v in c.items() if k.startswith("types_with:")))
     print("  types_head: " + ", ".join("%s=%d" % (k.split(":", 1)[1], v) for k, v in c.items() if k.startswith("types_head:")))
     print("  origins: " + ", ".join("%s=%d" % (k.split(":", 1)[1], v) for k, v in c.items() if k.startswith("origin:")))
     print("  expect errors: " + ", ".join("%s=%d" % (k.split(":", 1)[1], v) for k, v in c.items() if k.startswith("expect_err:")))
+    for k_, v_ in c.items():
+        if k_.startswith("disagreement:"):
+            print("  disagreement %-60s %d" % (k_.split(":", 1)[1], v_))
     if r["inconclusive"]:
         print("  inconclusive: " + json.dumps(r["inconclusive"]))
     for key, n in r["violation_counts"].items():
